@@ -51,6 +51,11 @@ def run(chk, tier):
     chk.floor("R-SENTINEL", "distances entry points taking a depth", nsn, 2)
     chk.rule("R-ATOMIC", "argument failures of the add steps happen before the list is linked")
     atomic.check(chk, P, E, "hwloc_distances_add_create", "distances.c", atomic.topo_writes(E, arg_indices=(0,), ignore_paths=("next_dist_id",)), only_errno=22)
+    chk.rule("R-PARALLEL", "arrays that run in parallel are compacted together: the array fields of a record that share a count field as extent (discovered from the library's bulk operations) "
+             "have all had elements written, on every path, before a function lowers that count (must-dataflow over whole-program may-write summaries)")
+    import parallel
+    npar, pgroups = parallel.run(chk, P, E, ["distances.c"])
+    chk.floor("R-PARALLEL", "count-lowering sites of records with parallel arrays", npar, 1)
     chk.rule("R-RELFAIL", "a pointer handed to a function that releases it on its failing paths (discovered: every failing exit released the parameter, no successful exit did) "
              "is neither passed on nor dereferenced after that call failed: callers explored with callee outcomes forked into failed / succeeded")
     import relfail
